@@ -1148,7 +1148,7 @@ impl Check for C20 {
     }
     fn rule(&self) -> String {
         format!(
-            "crash: text = a generated program (12-42 nodes), a corpus file (<=1400 bytes, else a 300-1200 byte window cut at a line start) or textgen::mutate_corpus of the {n} corpus sources; one editor-style edit (none, prefix at a token boundary, prefix inside a token, one token deleted, one token inserted, unterminated string, dropped brace/parenthesis, `ident.` / `Ident::` typed after an identifier, non-ASCII text inserted); positions = either every column 0..=len+2 of one line or 6-13 positions drawn from: inside a line, line end, 1-5 columns beyond the line end, 0-2 lines beyond the last line, (0,0), huge values (u32::MAX, 2^31, 65536), inside a multi-byte character, just after a `.` / `::`, end of text. At every position hover_type, dot_completions and colon_colon_completions are called (for a quarter of the cases also the three wasm-app wrappers) with a path in an empty directory; any panic fails, Err/None answers are fine. hover: a generated well-typed program (fails=false, 20-60 nodes quick / 20-110 thorough) that goml compiles; for up to 60 local-variable occurrences (binders and uses, from render_with_marks) hover_type at the first byte, a middle byte or just after the identifier must answer the generator's type of that variable in the compiler's notation (validated in setup against fixed programs); a different type = wrong-type, Err = no-answer. completion: a corpus program without imports (or a generated one) that type-checks cleanly; after a one-line `let v = ..;` or at the top of a function with parameter v the line `v.<prefix>` (bare or as `let _ = v.<prefix>;`) is inserted, or `Name::<prefix>` for a declared enum/struct/trait at the top of main; every offered item must start with the typed prefix and, inserted as `let _ = v.field;` / `v.method()` / `Name::Variant` / `Name::method()`, must not draw a diagnostic saying that the name is unknown (arity and inference errors of the synthesized call are not held against the item). Non-trivial = crash: the text has parse errors or some position is not a token start; hover: some judged occurrence is a use inside a nested block or of a name bound more than once; completion: a non-empty list whose items were all inserted and checked. Distinct by hash of text (+ positions / request).",
+            "crash: text = a generated program (12-42 nodes), a corpus file (<=1400 bytes, else a 300-1200 byte window cut at a line start) or textgen::mutate_corpus of the {n} corpus sources; one editor-style edit (none, prefix at a token boundary, prefix inside a token, one token deleted, one token inserted, unterminated string, dropped brace/parenthesis, `ident.` / `Ident::` typed after an identifier, non-ASCII text inserted); positions = either every column 0..=len+2 of one line or 6-13 positions drawn from: inside a line, line end, 1-5 columns beyond the line end, 0-2 lines beyond the last line, (0,0), huge values (u32::MAX, 2^31, 65536), inside a multi-byte character, just after a `.` / `::`, end of text. At every position hover_type, dot_completions and colon_colon_completions are called (for a quarter of the cases also the three wasm-app wrappers) with a path in an empty directory; any panic fails, Err/None answers are fine. hover: a generated well-typed program (fails=false, 20-60 nodes quick / 20-110 thorough) that goml compiles; for up to 60 local-variable occurrences (binders and uses, from render_with_marks) hover_type at the first byte, a middle byte or just after the identifier must answer the generator's type of that variable in the compiler's notation (validated in setup against fixed programs); a different type = wrong-type, Err = no-answer. completion: a corpus program without imports (or a generated one) that type-checks cleanly; after a one-line `let v = ..;` or at the top of a function with parameter v the line `v.<prefix>` (bare or as `let _ = v.<prefix>;`) is inserted, or `Name::<prefix>` for a declared enum/struct/trait at the top of main; every offered item must start with the typed prefix and, inserted as `let _ = v.field;` / `v.method()` / `Name::Variant` / `Name::method()`, must not draw a diagnostic saying that the name is unknown (arity and inference errors of the synthesized call are not held against the item). Non-trivial = crash: the text has parse errors or some position is not a token start; hover: some judged occurrence is a use inside a nested block or of a name bound more than once; completion: a non-empty list whose items were all inserted and checked. Distinct by hash of text (+ positions / request). Half of the dot-completion requests and 15% of the hover cases use method programs: a generic struct with one or two type parameters, a generic inherent impl, an inherent impl for ONE instance (and possibly a second one), a plain struct with inherent and trait impl, annotated receivers of several instances; every offered method must type-check when called, and a hover on the method name of a call reports the method's type at that instance.",
             n = corpus::sources().len()
         )
     }
